@@ -53,6 +53,9 @@ def gen_comb_cases(r, count):
     for n in (0, 1, 2, 11, 12, 98, 99, 100, 101):
         for k in (0, 1, 2, 10, 11, 12, 13):
             cases.add((n, k))
+    # the k = 9, 10, 11 columns of the table over their whole height plus the first columns beyond it
+    for _ in range(60):
+        cases.add((r.randint(40, 115), r.choice([9, 10, 10, 11, 11, 12, 13])))
     for _attempt in range(count * 3):
         if len(cases) >= count:
             break
@@ -82,13 +85,27 @@ def gen_comb_cases(r, count):
     return sorted(cases)
 
 
-def gen_genotype(r):
-    ploidy = r.choice([1, 2, 2, 3, 4, 4, 6, 8, 12, 20, 40])
+def vcf_rank(g):
+    """independent VCF rank of an ascending genotype (combinatorial number system, exact Python integers)"""
+    return sum(math.comb(int(a) + i, i + 1) for i, a in enumerate(sorted(g)))
+
+
+def gen_genotype(r, table_edge=False):
+    ploidy = r.choice([1, 2, 2, 3, 4, 4, 6, 8, 12, 20, 40]) if not table_edge else r.choice([10, 11, 12, 13])
     # choose n_alleles with cwr < 2^53
-    while True:
-        n = r.choice([1, 2, 3, 4, 5, 8, 16, 100, 1000, 10 ** 4, 10 ** 6])
+    for _ in range(200):
+        n = r.choice([1, 2, 3, 4, 5, 8, 16, 100, 1000, 10 ** 4, 10 ** 6]) if not table_edge else r.choice([46, 60, 70, 80, 90, 100, 101, 110])
         if math.comb(n + ploidy - 1, ploidy) < LIMIT:
             break
+    else:
+        n = 2
+    if table_edge:
+        # pooled samples: ploidy 10..13 over up to ~100 haplotypes, i.e. the k = 10, 11 columns and the n = 99 / 100 row edge of the 100 x 12 tables
+        g = sorted(r.randrange(n) for _ in range(ploidy))
+        if r.random() < 0.5:
+            top = r.randint(2, 4)
+            g = sorted(g[:ploidy - top] + [r.randrange(max(0, n - 50), n) for _ in range(top)])
+        return n, ploidy, g
     style = r.random()
     if style < 0.4:
         pool = [r.randrange(n) for _ in range(max(1, ploidy // 2))]
@@ -161,8 +178,57 @@ def run(tier, replay=None):
                               {"fn": "count_unique_genotypes", "n": n, "k": k, "impl": cu, "expected": truth},
                               signature="C11/count_unique_genotypes/wrong-value")
 
+    # ---------------- every entry of the two lookup tables (what the jitted functions read) against exact integers
+    for tname, exact in (("_COMB_CACHE", lambda n, k: math.comb(n, k)),
+                         ("_COMB_WITH_REPLACEMENT_CACHE", lambda n, k: 0 if (n == 0 and k == 0) else math.comb(n + k - 1, k))):
+        table = getattr(J, tname, None)
+        if table is None:
+            chk.count(f"table:{tname}:absent")
+            continue
+        table = np.asarray(table)
+        wrong = [(n, k, int(table[n, k]), exact(n, k)) for n in range(table.shape[0]) for k in range(table.shape[1])
+                 if exact(n, k) < LIMIT and int(table[n, k]) != exact(n, k)]
+        chk.count(f"table:{tname}:entries", int(table.size))
+        chk.case(("table", tname, table.shape), True)
+        if wrong:
+            n, k, got, want = wrong[0]
+            fname = "comb" if tname == "_COMB_CACHE" else "comb_with_replacement"
+            chk.violation(f"lookup table {tname}[{n},{k}] = {got}, exact value {want} ({len(wrong)} wrong entries)",
+                          {"fn": fname, "n": n, "k": k, "impl": got, "expected": want, "n_wrong": len(wrong),
+                           "wrong": [list(w) for w in wrong[:12]]}, signature=f"C11/{fname}/wrong-value")
+    # ---------------- error branches
+    for (n, k) in [(-1, 0), (-1, 3), (5, -1), (-3, -2), (-1, 20), (200, -1)]:
+        for fname in ("_comb", "comb", "comb_with_replacement"):
+            fn = getattr(J, fname)
+            try:
+                res = int(fn(n, k))
+            except ValueError:
+                res = "ValueError"
+            except Exception as e:  # noqa
+                res = f"error:{type(e).__name__}"
+            chk.count(f"negative-argument:{fname}:{'raises' if not isinstance(res, int) else 'returns-zero' if res == 0 else 'returns-nonzero'}")
+            chk.case(("negative", fname, n, k), True)
+            if fname == "_comb" and res != "ValueError":
+                # the exact routine documents its domain by raising; a number here means the guard is gone
+                chk.violation(f"_comb({n},{k}) does not raise ValueError for a negative argument (returned {res})",
+                              {"fn": "_comb", "n": n, "k": k, "impl": res}, signature="C11/_comb/negative-argument")
+            if isinstance(res, int) and res != 0:
+                chk.extra.setdefault("negative_argument_returns_a_count", []).append({"fn": fname, "n": n, "k": k, "returned": res})
+    for p_ in (1, 2, 4, 12):
+        for idx_ in (-1, -5):
+            try:
+                res = J.index_as_genotype_alleles(idx_, p_)
+                shown = None if res is None else np.asarray(res).tolist()
+            except Exception as e:  # noqa
+                shown = f"error:{type(e).__name__}"
+            chk.count("negative-index:" + ("None" if shown is None else "raises" if isinstance(shown, str) else "array"))
+            chk.case(("negative-index", idx_, p_), True)
+            if isinstance(shown, list) and (len(shown) != p_ or any(a >= 0 for a in shown)):
+                chk.violation("index_as_genotype_alleles of a negative index returns called alleles (an invalid index must give an uncalled genotype)",
+                              {"index": idx_, "ploidy": p_, "impl": shown}, "C11/decode/negative-index")
+
     # ---------------- encode / decode / increment on random genotypes
-    gcases = [gen_genotype(r) for _ in range(int(500 * scale) + 20)]
+    gcases = [gen_genotype(r) for _ in range(int(500 * scale) + 20)] + [gen_genotype(r, table_edge=True) for _ in range(int(250 * scale) + 10)]
     lines = []
     for n, p, g in gcases:
         gs = " ".join(map(str, g))
@@ -210,6 +276,30 @@ def run(tier, replay=None):
         if i_dec != g:
             chk.violation("index_as_genotype_alleles(genotype_alleles_as_index(g)) != g",
                           {**case, "index": i_idx, "decoded": i_dec}, "C11/index/roundtrip")
+        if i_idx != vcf_rank(g):
+            chk.violation("genotype_alleles_as_index is not the VCF position (independent combinatorial rank)",
+                          {**case, "genotype": g, "vcf_position": vcf_rank(g), "impl": i_idx}, "C11/index/order")
+        if p in (10, 11, 12, 13):
+            chk.count("genotype:table-edge-ploidy")
+        # the same genotype in the integer widths the callers really use (int8 haplotype labels, int16 / int32 allele arrays)
+        for dt in (np.int8, np.int16, np.int32):
+            if max(g) + 1 > np.iinfo(dt).max:
+                continue
+            small = np.array(g, dtype=dt)
+            chk.count(f"dtype:{np.dtype(dt).name}")
+            try:
+                j_small = int(J.genotype_alleles_as_index(small))
+                nxt_s = small.copy()
+                J.increment_genotype(nxt_s)
+                inc_s = " ".join(map(str, nxt_s.tolist()))
+            except Exception as e:
+                chk.violation(f"genotype_alleles_as_index / increment_genotype raised {type(e).__name__} on a {np.dtype(dt).name} genotype",
+                              {**case, "dtype": np.dtype(dt).name}, "C11/index/dtype")
+                continue
+            if j_small != vcf_rank(g) or (not i_inc.startswith("error") and inc_s != i_inc) or nxt_s.dtype != np.dtype(dt):
+                chk.violation(f"index / successor of a {np.dtype(dt).name} genotype differ from those of the same int64 genotype",
+                              {**case, "dtype": np.dtype(dt).name, "index": j_small, "vcf_position": vcf_rank(g), "next": inc_s, "next_int64": i_inc},
+                              "C11/index/dtype")
         if not i_inc.startswith("error"):
             try:
                 j = int(J.genotype_alleles_as_index(nxt))
@@ -250,7 +340,8 @@ def run(tier, replay=None):
                           {"n_alleles": n, "ploidy": p, "index": idx, "decoded": impl, "re-encoded": back}, "C11/decode/spec")
 
     # ---------------- complete enumerations
-    spaces = [(n, p) for n in range(1, 7) for p in range(1, 6)]
+    # (101, 2) and (2, 13) leave the 100 x 12 tables through the row and the column edge; (3, 11) / (3, 13): ploidies around the column edge
+    spaces = [(n, p) for n in range(1, 7) for p in range(1, 6)] + [(101, 2), (2, 13), (3, 11), (3, 13), (2, 12)]
     if tier == "thorough":
         spaces += [(n, p) for n in range(7, 12) for p in range(1, 7)] + [(3, 20), (2, 60), (30, 3)]
     if tier == "warm":
